@@ -87,6 +87,22 @@ def materialise(plan, opt, rng, work, fmt="json"):
         objs = [sample(sid, rng) for sid in a["ids"]]
         lookup = "-"
         data = None
+        if kind == "glob":
+            # a directory with two files, one object each, named by a pattern
+            d = os.path.join(work, "g%d" % i)
+            os.makedirs(d)
+            names = ["b%d_second.%s" % (i, fmt), "a%d_first.%s" % (i, fmt)] if rng.random() < 0.5 else ["x%d_1.%s" % (i, fmt), "x%d_0.%s" % (i, fmt)]
+            for nm, o in zip(names, objs):
+                with open(os.path.join(d, nm), "w") as f:
+                    json.dump(o, f)
+                path_index[nm] = i
+            contents[i] = (kind, objs)
+            pat = os.path.join(d, rng.choice(["*.%s" % fmt, "?*.%s" % fmt, "*"]))
+            if a["flag"] == "m":
+                argv += ["-m", a["model"], pat]
+            else:
+                argv += ["-l", a["model"], "-", pat]
+            continue
         if kind == "list":
             data = objs
         elif kind == "object":
@@ -134,7 +150,7 @@ def materialise(plan, opt, rng, work, fmt="json"):
     for a in order:
         i = plan["args"].index(a) + 1
         kind, objs = contents[i]
-        if kind in ("list", "object", "lookup"):
+        if kind in ("list", "object", "lookup", "glob"):
             per_model.setdefault(a["model"], []).extend(objs)
         else:
             per_model.setdefault(a["model"], [])
@@ -302,7 +318,15 @@ def run_plan(plan, opt, rng, fmt="json", sub=False):
         lib = ""
         if status == 0:
             try:
-                lib = lib_text(per_model, opt)
+                # the same samples in the order the CLI assembled them (the order inside a pattern is unspecified)
+                by_id = {s_["sid"]: s_ for ss in per_model.values() for s_ in ss if isinstance(s_, dict)}
+                observed = {}
+                for e in rec.events:
+                    if e["ev"] == "Generate" and e.get("ok") and e.get("model"):
+                        observed[e["model"]] = [by_id[i] for i in e["ids"] if i in by_id]
+                lib_models = {m: (observed.get(m) if observed.get(m) is not None and len(observed[m]) == len(ss) else ss)
+                              for m, ss in per_model.items()}
+                lib = lib_text(lib_models, opt)
             except Exception as e:
                 lib = "LIB-FAILED %r" % e
         code = strip_header(printed) if printed.startswith('r"""') else None
